@@ -474,7 +474,7 @@ def run_c18(prop, tier, seed):
                     finally:
                         for c_ in (ca, cb):
                             if hasattr(c_, "_buffer"):
-                                c_._buffer.clear(); c_._buffered_collections.clear(); c_._CURRENT_BUFFER_SIZE = 0; c_._buffer_context._count = 0
+                                reset_buffer_class(c_)
         # 2. attribute access = item access, at depth 0..2, key pool x {get,set,del}
         for r in rows:
             cls = getattr(ns.cj, r["cls"])
@@ -799,7 +799,7 @@ def run_c14_reader_at_rename(prop, tier, seed):
                         os.replace = real_replace
                         cj.os.replace = real_replace
                         if hasattr(cls, "_buffer"):
-                            cls._buffer.clear(); cls._buffered_collections.clear(); cls._CURRENT_BUFFER_SIZE = 0; cls._buffer_context._count = 0
+                            reset_buffer_class(cls)
                     new = (old + [{"new": 1}]) if is_list else dict(old, new={"n": 1})
                     ev += len(seen)
                     if not seen:
